@@ -32,13 +32,19 @@ def rearmed_barrier(prog):
     return any(k < len(exp) and n > exp[k] for k, n in cnt.items())
 
 
-def classify(prog, symptom):
+def classify(prog, symptom, rc=None):
     """symptom: 'rc' (non-zero exit), 'dup' (two equivalent executions), 'count' (fewer/more executions than classes).
     A key is returned only for the witness class of a registered finding; everything else (e.g. a program made of
     semaphores and mutexes only with fewer executions than classes) is a plain violation."""
     f = mclib.features(prog)
     if symptom == "rc":
-        return "odpor-random-with-created-actor-spurious-crash" if ("X" in f["ops"] and f["nchild"] > 0) else None
+        if "X" in f["ops"] and f["nchild"] > 0:
+            return "odpor-random-with-created-actor-spurious-crash"
+        if "X" in f["ops"] and rc == 4:
+            return "odpor-random-spurious-crash"            # proposed (thorough tier): odpor executes a disabled transition
+        if "X" in f["ops"] and rc == 139:
+            return "odpor-random-unbounded-exploration"     # proposed (thorough tier): odpor never ends, stack overflow
+        return None
     if "X" in f["ops"]:
         return "odpor-random-redundant-executions"
     if "B" in f["ops"] and symptom == "count" and rearmed_barrier(prog):
@@ -295,7 +301,7 @@ def run(ctx):
         if ro["rc"] != 0:
             ctx.cov["evaluations"] += 1
             case["tail"] = ro["text"][-800:]
-            ctx.violation("odpor exits with %d on a program without reachable failure" % ro["rc"], case, key=classify(p, "rc"))
+            ctx.violation("odpor exits with %d on a program without reachable failure" % ro["rc"], case, key=classify(p, "rc", ro["rc"]))
             continue
         po = mclib.END_RE.findall(ro["text"])
         pn = mclib.END_RE.findall(rn["text"]) if rn else []
